@@ -26,6 +26,7 @@ class World:
     def __init__(self, repo: Repo):
         T.reset()
         self.repo = repo
+        self.tag = ''  # appended to the names of the symbols made from now on (a second set of inputs with other values)
         self.model = SqwModel()
         self.it = SqwInterp(repo, self.model)
         self.it.events, self.it.conditions = [], []
@@ -35,7 +36,7 @@ class World:
     def sv(self, name, unit, shape=(), dtype='float64', kind='scalar', dims=None):
         u = NO_UNIT if unit is None else (parse_unit(unit) if isinstance(unit, str) else unit)
         spec = P(kind='vector' if kind == 'vector' else 'scalar', dim='ONE', positive=False, unit=u, dtype='vector3' if kind == 'vector' else dtype)
-        v = make_param(self.it, name, spec)
+        v = make_param(self.it, name, spec, suffix=self.tag)
         return set_shape(v, shape, dims)
 
     def const(self, values, unit=None, dims=('axis',), dtype='float64'):
@@ -147,8 +148,10 @@ class Written:
         self.n_runs = 0
 
 
-def build(repo: Repo, calls=('P', 'I', 'S', 'D', 'T'), byteorder='little', n_pixels=5, chunk=2, n_runs=1, target='memory', title='a title', indirect=False, transposed=False, shared_runs=False) -> Written:
-    w = World(repo)
+def build(repo: Repo, calls=('P', 'I', 'S', 'D', 'T'), byteorder='little', n_pixels=5, chunk=2, n_runs=1, target='memory', title='a title', indirect=False, transposed=False, shared_runs=False,
+          world=None, run_ids=None) -> Written:
+    """`world`: write one more file in the world of an earlier build (module-level tables and caches of the package persist)."""
+    w = world if world is not None else World(repo)
     out = Written()
     out.world, out.calls, out.byteorder, out.n_pixels, out.n_runs = w, tuple(calls), byteorder, n_pixels, n_runs
     target_obj = AbsFile(True) if target == 'memory' else '/tmp/out.sqw'
@@ -164,6 +167,8 @@ def build(repo: Repo, calls=('P', 'I', 'S', 'D', 'T'), byteorder='little', n_pix
             for k in range(n_runs):
                 tmpl = sup['experiments'][0] if shared_runs and sup['experiments'] else None
                 sup['experiments'].append(experiment(w, k, direct=not indirect, transposed=transposed, template=tmpl))
+                if run_ids is not None:
+                    sup['experiments'][-1].attrs['run_id'] = run_ids[k]  # the caller numbers its runs as it likes
             kind, b2 = w.call(repo.func(BUILD, 'SqwBuilder.add_pixel_data'), [sup['pixels']], {'experiments': sup['experiments']}, bound=b)
         elif c == 'I':
             sup['instrument'] = instrument(w)
